@@ -206,6 +206,8 @@ class GroupMachine(Machine):
                 kinds = ["scalar", "scalar", "list", "tuple", "short", "long", "empty", "first"]
                 if ndarray_ok(cls, a) and VAL[a] not in ("engine", "targets", "point", "vector"):
                     kinds.append("ndarray")
+                if isinstance(VAL[a], tuple):
+                    kinds.append("npscalar")       # a single number that is not a Python int / float (array.max(), array[0])
                 ops.append({"op": "set", "attr": a, "kind": rng.choice(kinds), "values": [gen_scalar(rng, a) for _ in range(8)]})
             elif u < 0.66:
                 ops.append({"op": "names", "kind": rng.choice(["list", "tuple", "short", "long", "str"]),
@@ -629,10 +631,13 @@ class GroupMachine(Machine):
             c.mutations += 1
             env.probe("scalar_equal_to_first_member")
             return "ok", "first"
-        if kind == "scalar":
+        if kind in ("scalar", "npscalar"):
             val = self._val(c, raw[0])
-            if VAL[a] == "targets":
-                pass
+            if kind == "npscalar":
+                if not isinstance(VAL[a], tuple):
+                    return "noop", ""
+                val = (np.int64 if val % 2 else np.int32)(val) if VAL[a][0] == "int" else np.float32(val)
+                env.probe("numpy_scalar_broadcast")
             try:
                 setattr(g, a, val)
             except Exception as e:
@@ -640,8 +645,8 @@ class GroupMachine(Machine):
             for i in c.members:
                 c.model[i][a] = self._expected_member_value(c, c.pool[i], a, val)
             c.mutations += 1
-            env.stats.add("triples", "%s.%s.scalar" % (c.gname, a))
-            return "ok", "scalar"
+            env.stats.add("triples", "%s.%s.%s" % (c.gname, a, kind))
+            return "ok", kind
         if kind in ("list", "tuple", "ndarray"):
             vals = [self._val(c, v) for v in (raw * 2)[:n]]
             seq = vals
